@@ -118,6 +118,14 @@ func genAccept(r *core.Rand, produces, registered []string) []accRange {
 			m = r.Pick(registered)
 		case k < 7:
 			m = "*/*"
+		case k < 8:
+			// a spelling in other letter case: media types are compared as written, so this is a foreign range
+			m = r.Pick(produces)
+			if r.Chance(1, 2) {
+				m = strings.ToUpper(m)
+			} else {
+				m = strings.ToUpper(m[:1]) + m[1:]
+			}
 		default:
 			m = r.Pick(others)
 		}
